@@ -7,6 +7,10 @@
     status it has there when the text says "fixed" / "known" right next to it (not checked: free prose);
   * every 7-hex commit that is named exists in /repo's history (fix commits) or in /verif's own history (evidence /
     seed commits such as ce2410d).
+A FORMER id of a repaired finding (C04-F2 for C04-X-e73c6a2, C06-F7r for C06-X-5a4aa62, ...: the names the theorems, the
+corpus files and the commit messages still use) is accepted when an entry of known_findings.json records it under `was` /
+`former_ids` or when tools/clean_findings.py lists it as SUPERSEDED (= its defect was repaired; a `known` entry under
+that id would be dropped).
 A finding id may be written with a wildcard tail (C11-X-3370abe-* for C11-X-3370abe-bnode and -nonliteral): an id
 that is a proper prefix of existing ids, or an existing id followed by a further "-word" taken from the prose, is fine.
 exit 0 when clean, 1 otherwise (prints what is dangling)."""
@@ -40,6 +44,14 @@ def main():
                                  text=True).stdout.split())
     own = set(subprocess.run(["git", "-C", ROOT, "log", "--all", "--format=%h", "--abbrev=7"], capture_output=True,
                              text=True).stdout.split())
+    former = set()
+    for f in kf.values():
+        w = f.get("was", []), f.get("former_ids", [])
+        for x in w:
+            former.update([x] if isinstance(x, str) else x)
+    m = re.search(r'SUPERSEDED = set\("""(.*?)"""', open(os.path.join(ROOT, "tools", "clean_findings.py")).read(), re.S)
+    if m:
+        former.update(m.group(1).split())
     design = open(os.path.join(ROOT, "DESIGN.md")).read()
     # only the as-built parts are held to this standard (sections 1-10 are the design written before the code)
     built = design.split("## 0. One-paragraph summary")[0] + "## 11." + design.split("## 11.", 1)[-1]
@@ -57,6 +69,8 @@ def main():
             bad.append("name %s (MANIFEST.json / DESIGN.md): not defined under rocq/theories" % n)
     for fid in sorted(set(re.findall(r"\b(C\d\d-(?:F\d+r?|R\d+|X-[0-9a-f]{7}(?:-[a-z]+)?))\b", built + manifest))):
         base = re.sub(r"^(C\d\d-X-[0-9a-f]{7})-[a-z]+$", r"\1", fid)
+        if fid in former and fid not in kf:
+            continue
         if fid not in kf and base not in kf and not any(k.startswith(fid + "-") or k.startswith(base + "-") for k in kf):
             bad.append("finding id %s is not in known_findings.json" % fid)
     for c in sorted(set(re.findall(r"\b([0-9a-f]{7})\b", built))):
